@@ -168,7 +168,7 @@ func runC17(c *Ctx) {
 				continue
 			}
 			nMsg++
-			ok := strings.Contains(d, `strings.SplitN(textproto.Error.Msg," ",2)[1]`)
+			ok := strings.Contains(d, `strings.SplitN(textproto.Error.Msg," ",2)[1]`) || strings.Contains(d, `strings.Cut(textproto.Error.Msg," ")#1`)
 			R.Ob(c.siteKey(site, "message is the text after the enhanced code"), c.P.InstrPos(site), ok, "SMTPError.Message becomes "+d)
 			c.obFactMatch("message cut only when the code parses", site, `^parseEnhancedCode\(.*\)#1 == nil$`, "message cut although the first word is not an enhanced code")
 		}
